@@ -77,8 +77,9 @@ def parse_vc(path):
         return '\n'.join(buf), i
 
     def rx(s):
-        m = re.search(r'/(.*)/(?:\s*#(\d+))?\s*(<<<)?\s*$', s)
+        m = re.search(r'/(.*)/(?:\s*#(\d+))?(?:\s+as\s+(\w+))?\s*(<<<)?\s*$', s)
         if not m: raise ValueError(f'{path}:{i+1}: expected /regex/')
+        rx.alias = m.group(3)
         return m.group(1), int(m.group(2) or 1)
 
     while i < len(lines):
@@ -123,7 +124,7 @@ def parse_vc(path):
             cur_loop = None; section = ('ensures', cur_fn)
         elif kw == 'loop':
             r, n = rx(s)
-            cur_loop = LoopSpec(r, n); cur_fn.loops.append(cur_loop); section = None
+            cur_loop = LoopSpec(r, n); cur_loop.alias = rx.alias; cur_fn.loops.append(cur_loop); section = None
         elif kw == 'invariant' and len(w) == 1: section = ('invariant', cur_loop)
         elif kw == 'invariant_except_break' and len(w) == 1: section = ('invariant_except_break', cur_loop)
         elif kw == 'decreases':
@@ -314,8 +315,23 @@ def splice_module(text, mod_path, fnspecs, gen, twin=False):
             edits.append((it.body_open + 1, it.body_open + 1, f'\n        proof {{ {MARK % tid} assert(false); }}'))
             gen.twin_points.append(tid)
         # loops
+        subst = {}
         if fs.loops:
             loops = _find_loops(text, it.body_open, it.end)
+            for ls in fs.loops:
+                cands = [l for l in loops if re.search(ls.regex, re.sub(r'\s+', ' ', l[1]))]
+                if len(cands) >= ls.nth and getattr(ls, 'alias', None):
+                    kw0, ht0 = cands[ls.nth - 1][0], cands[ls.nth - 1][1]
+                    mv = re.search(r'__[a-z]+\d+', ht0) or (re.findall(r'__[a-z]+\d+', text[max(it.body_open, kw0 - 80):kw0]) or [None])[-1]
+                    if mv is None: raise Unsupported(f'lost anchor: generated variable for loop alias {ls.alias} in {fs.path}')
+                    subst['$' + ls.alias] = mv if isinstance(mv, str) else mv.group(0)
+            def sub(tx):
+                for k_, v_ in subst.items(): tx = tx.replace(k_, v_)
+                return tx
+            for ls in fs.loops:
+                for c in ls.invariants + ls.ensures + ls.except_break: c.text = sub(c.text)
+                if ls.decreases: ls.decreases = sub(ls.decreases)
+            fs.proofs = [(w_, r_, n_, sub(t_)) for (w_, r_, n_, t_) in fs.proofs]
             for ls in fs.loops:
                 cands = [l for l in loops if re.search(ls.regex, re.sub(r'\s+', ' ', l[1]))]
                 if len(cands) < ls.nth:
@@ -338,6 +354,11 @@ def splice_module(text, mod_path, fnspecs, gen, twin=False):
                     if ins != brace: raise Unsupported(f'{fs.path}: decreases given for a loop that already has a generated one')
                     sp += f'\n            decreases {ls.decreases}'
                 edits.append((ins, ins, sp + '\n        '))
+                if htext.startswith('for') and (ls.invariants or ls.except_break):
+                    mfor = re.match(r'for\s+(.*?)\s+in\s+', htext, re.S)
+                    # R10: name the ghost iterator so invariants can mention it
+                    pos_in = kw + mfor.end()
+                    edits.append((pos_in, pos_in, 'it: '))
                 if twin and (ls.invariants or ls.except_break):
                     tid = f'TWIN:loop:{fs.path}:/{ls.regex}/#{ls.nth}'
                     edits.append((brace + 1, brace + 1, f'\n        proof {{ {MARK % tid} assert(false); }}'))
